@@ -414,9 +414,35 @@ func runC09(c *core.Ctx) {
 
 // c09Metadata pushes one metadata document through every metadata consumer, then registers it with an IdP and asks for a response.
 func c09Metadata(t *core.T, doc []byte, family string, idp *saml.IdentityProvider) {
-	_, pan := anyContract(t, "samlsp.ParseMetadata", family, func() (bool, error) {
+	// the parser runs under a watchdog: a document on which it does not return is a hang, not something to wait out
+	type res struct {
+		md  *saml.EntityDescriptor
+		err error
+		pan interface{}
+	}
+	ch := make(chan res, 1)
+	go func() {
+		defer func() {
+			if r := recover(); r != nil {
+				ch <- res{pan: r}
+			}
+		}()
 		md, err := samlsp.ParseMetadata(doc)
-		return md != nil, err
+		ch <- res{md: md, err: err}
+	}()
+	var r res
+	select {
+	case r = <-ch:
+	case <-time.After(20 * time.Second):
+		t.Fail("C09/samlsp.ParseMetadata/"+family+"/does-not-return", "samlsp.ParseMetadata has not returned after 20 s on a %d-byte document", len(doc))
+		t.Input("metadata_xml", string(trunc(doc, 4000)))
+		return // (the stuck goroutine is abandoned; the worker process ends with the run)
+	}
+	_, pan := anyContract(t, "samlsp.ParseMetadata", family, func() (bool, error) {
+		if r.pan != nil {
+			panic(r.pan)
+		}
+		return r.md != nil, r.err
 	})
 	if pan {
 		t.Input("metadata_xml", string(trunc(doc, 4000)))
@@ -1195,6 +1221,28 @@ func c09Bytes(c *core.Ctx, sp *saml.ServiceProvider, idp *saml.IdentityProvider)
 		"soap-fault":      []byte("<s:Envelope xmlns:s=\"http://schemas.xmlsoap.org/soap/envelope/\"><s:Body><s:Fault><faultcode>s:Server</faultcode><faultstring>no</faultstring></s:Fault></s:Body></s:Envelope>"),
 		"soap12-envelope": []byte("<s:Envelope xmlns:s=\"http://www.w3.org/2003/05/soap-envelope\"><s:Body/></s:Envelope>"),
 	}
+	// federation aggregates: EntitiesDescriptor groups nested 1..4 deep, with and without an IdP somewhere inside, with uneven fan-out
+	mdNS := "urn:oasis:names:tc:SAML:2.0:metadata"
+	idpED := `<EntityDescriptor entityID="https://nested-idp.example.com/"><IDPSSODescriptor protocolSupportEnumeration="urn:oasis:names:tc:SAML:2.0:protocol"><SingleSignOnService Binding="urn:oasis:names:tc:SAML:2.0:bindings:HTTP-Redirect" Location="https://nested-idp.example.com/sso"/></IDPSSODescriptor></EntityDescriptor>`
+	spED := `<EntityDescriptor entityID="https://nested-sp.example.com/"><SPSSODescriptor protocolSupportEnumeration="urn:oasis:names:tc:SAML:2.0:protocol"><AssertionConsumerService Binding="urn:oasis:names:tc:SAML:2.0:bindings:HTTP-POST" Location="https://nested-sp.example.com/acs" index="1"/></SPSSODescriptor></EntityDescriptor>`
+	for depth := 1; depth <= 4; depth++ {
+		for _, leaf := range []struct{ n, x string }{{"empty", ""}, {"sp-only", spED}, {"idp", idpED}} {
+			for _, fan := range []string{"chain", "two-then-one", "one-then-three"} {
+				inner := leaf.x
+				for d := depth; d >= 1; d-- {
+					g := "<EntitiesDescriptor>" + inner + "</EntitiesDescriptor>"
+					switch {
+					case fan == "two-then-one" && d == 1:
+						g = "<EntitiesDescriptor>" + inner + "</EntitiesDescriptor><EntitiesDescriptor>" + spED + "</EntitiesDescriptor>"
+					case fan == "one-then-three" && d == 2:
+						g = "<EntitiesDescriptor>" + inner + "</EntitiesDescriptor><EntitiesDescriptor/><EntitiesDescriptor>" + spED + "</EntitiesDescriptor>"
+					}
+					inner = g
+				}
+				deg[fmt.Sprintf("nested-groups/depth=%d/leaf=%s/%s", depth, leaf.n, fan)] = []byte(`<EntitiesDescriptor xmlns="` + mdNS + `">` + inner + `</EntitiesDescriptor>`)
+			}
+		}
+	}
 	for name, d := range deg {
 		for _, kind := range []string{"response", "artifact", "logout", "request", "metadata"} {
 			name, d, kind := name, d, kind
@@ -1396,6 +1444,36 @@ func c09Resolver(c *core.Ctx, sp *saml.ServiceProvider) {
 			}
 		})
 	}
+	// the request's own context ends and the back channel fails BECAUSE of it (as net/http's transport does): still the same error contract
+	for _, how := range []string{"cancelled-before-the-call", "deadline-passes-before-the-reply", "deadline-passes-while-the-body-is-read"} {
+		how := how
+		c.Case("resolver/context-ends/"+how, func(t *core.T) {
+			t.NonTrivial()
+			var ctx context.Context
+			var cancel context.CancelFunc
+			if how == "cancelled-before-the-call" {
+				ctx, cancel = context.WithCancel(context.Background())
+				cancel()
+			} else {
+				ctx, cancel = context.WithTimeout(context.Background(), 30*time.Millisecond)
+				defer cancel()
+			}
+			err, pan := run(t, "resolver-context", func(id string) (*http.Response, error) {
+				switch how {
+				case "cancelled-before-the-call":
+					return nil, ctx.Err()
+				case "deadline-passes-before-the-reply":
+					<-ctx.Done()
+					return nil, ctx.Err()
+				}
+				d := reply(id)
+				return mkResp(200, &ctxBody{ctx: ctx, data: d[:len(d)/2]}, -1), nil
+			}, ctx)
+			if !pan && err == nil {
+				t.Fail("C09/ParseResponse-artifact/resolver-failure-swallowed", "the request context ended (%s) and an assertion was still produced", how)
+			}
+		})
+	}
 	c.Case("resolver/context-cancelled", func(t *core.T) {
 		t.NonTrivial()
 		ctx, cancel := context.WithCancel(context.Background())
@@ -1439,3 +1517,22 @@ func c09Resolver(c *core.Ctx, sp *saml.ServiceProvider) {
 	}
 	_ = os.Stdout
 }
+
+// ctxBody serves data and then blocks until its context ends, returning the context's error (as an http.Response body does).
+type ctxBody struct {
+	ctx  context.Context
+	data []byte
+	pos  int
+}
+
+func (b *ctxBody) Read(p []byte) (int, error) {
+	if b.pos < len(b.data) {
+		n := copy(p, b.data[b.pos:])
+		b.pos += n
+		return n, nil
+	}
+	<-b.ctx.Done()
+	return 0, b.ctx.Err()
+}
+
+func (b *ctxBody) Close() error { return nil }
